@@ -59,9 +59,9 @@ PROPS = {
     "C02": solver_prop("Props/Properties_C02.v", "proof",
         "Coq proof (store validity invariant + terminal test) for any lawful VersionSet, registry, well-behaved trace and fuel; correspondence + brute-force solution search as oracle",
         "3 Coq theorems: if the model of resolve returns NoSolution on a provider trace that agrees with the registry, no set of package versions containing the root satisfies all dependencies (for every lawful VersionSet, registry, strategy/trace, fuel); follows from the proved invariant that every stored incompatibility is valid and the terminal test. Tie: full-trace correspondence of the model with the Rust resolve; oracle: complete brute-force search for a solution on every NoSolution result."),
-    "C03": solver_prop(None, "other",
-        "exploration with an independent derivation-tree proof checker, tied to the Coq model by full-trace/tree correspondence",
-        "NOT yet stated as Coq theorems about the tree (the store invariant of C06 already proves that every stored entry is justified by its kind and valid; lifting it to build_derivation_tree is planned). Decided by exploration: every NoSolution tree is checked node by node (leaves against registry and provider answers, each derived node semantically entailed by its two causes over all assignments on the cells of the occurring bounds, top forbids the root, shared ids label identical subtrees occurring at least twice) and must equal the model's tree including shared ids."),
+    "C03": solver_prop("Props/Properties_C03.v", "proof",
+        "Coq proof that the tree built from the store has true leaves, derived nodes entailed by their causes for every assignment, and a top node forbidding the root; the shared-id clause is decided by tree correspondence + oracle",
+        "4 Coq theorems: for every lawful VersionSet, registry, well-behaved trace and fuel, the derivation tree of a NoSolution outcome of the model satisfies tree_ok (every external leaf true of the provider: root requirement, dependency declared with exactly that set by every existing version in the stated set, no provider version in a NoVersions set, unavailable dependencies for Custom; every derived node's terms entailed by its two causes for EVERY assignment) and its top node forbids the root at the requested version. The clause on shared ids is NOT proved in Coq: it is decided by the exact comparison of the Rust tree (structure, terms, shared ids) with the model's tree and by the oracle (same id => identical subtrees, an id occurs at least twice). Oracle: independent node-by-node proof checker on every NoSolution tree."),
     "C04": solver_prop(None, "other",
         "exploration with a reachability checker on every Ok result, tied to the Coq model by correspondence",
         "NOT yet a Coq theorem (needs I5/I9). Every Ok result is checked: each selected package is reachable from the root through dependencies of selected versions."),
